@@ -112,6 +112,64 @@ def name_hash_whole_name(ctx, mpq, pid):
             ctx.ok(R, {"fn": p_, "name_params": text})
 
 
+def _byte_wrappers(mpq):
+    # (the encrypting wrapper is the builder's method, or the crate function it delegates to since the in-place modifier shares it)
+    enc_w = "wow_mpq::builder::encrypt_file_data" if mpq.fns.get("wow_mpq::builder::encrypt_file_data") is not None else "wow_mpq::builder::ArchiveBuilder::encrypt_data"
+    return [(enc_w, "encrypt_block"), ("wow_mpq::archive::decrypt_file_data", "decrypt_block"),
+            ("wow_mpq::tables::common::decrypt_table_data", "decrypt_block")]
+
+
+def wrapper_guards_rule(ctx, mpq, pid):
+    """the byte-level cipher wrappers return early for exactly the same (length, key) classes (shared: C04, and C07 — a rebuilt
+    FIX_KEY file whose adjusted key happens to be 0 in the target must still read back)"""
+    wrappers = _byte_wrappers(mpq)
+    R_guard = ctx.rule("%s.wrapper-guards-agree" % pid, "the byte wrappers skip the cipher for exactly the same (length, key) classes: lengths 0..5 × key zero/non-zero", floor=2)
+    from .c10 import _bval, _NoEval
+    gtabs = {}
+    for path, _kern in wrappers:
+        f = mpq.fns.get(path)
+        if f is None or not f.hir:
+            continue
+        pnames = [b for p_ in f.hir["params"] for b in hirq.pat_binds(p_)]
+        dname = next((n_ for n_ in pnames if n_ in ("data", "buf", "buffer", "bytes")), None) or next((n_ for n_ in pnames if n_ not in ("self", "key")), None)
+        blk = hirq.strip(f.hir["body"])
+        guard = None
+        for st in (blk.get("stmts", []) if blk.get("k") == "block" else [])[:3]:
+            if st.get("k") == "if" and any(x.get("k") == "ret" for x in hirq.walk(st["then"])) and st.get("else") is None:
+                guard = st
+                break
+        tab = {}
+        for n_ in range(0, 6):
+            for kz in (0, 1):
+                if guard is None:
+                    tab[(n_, kz)] = False
+                    continue
+                try:
+                    tab[(n_, kz)] = _bval(guard["c"], {"__leaf__": (lambda r_, n_=n_, kz=kz: n_ if r_.endswith(".len()") else (kz if r_ == "key" else None))}, {})
+                except _NoEval:
+                    tab = None
+                    break
+            if tab is None:
+                break
+        gtabs[path] = (tab, guard)
+    known = {p_: t_ for p_, (t_, _g) in gtabs.items() if t_ is not None}
+    if known:
+        from collections import Counter
+        maj = Counter(tuple(sorted(t_.items())) for t_ in known.values()).most_common(1)[0][0]
+        for p_, t_ in sorted(known.items()):
+            g_ = gtabs[p_][1]
+            if tuple(sorted(t_.items())) == maj:
+                ctx.ok(R_guard, {"wrapper": p_, "guard": hirq.render(g_["c"])[:60] if g_ else "none", "skips": sorted(k_ for k_, v_ in t_.items() if v_)[:6]})
+            else:
+                diff = [k_ for k_ in t_ if dict(maj)[k_] != t_[k_]]
+                ctx.bad(R_guard, "%s|guard" % p_.split("::")[-1], "%s:%d" % (mpq.fns[p_].file, g_["ln"] if g_ else mpq.fns[p_].lo), "guard `%s` differs from its siblings for (len, key≠0) = %s" % (hirq.render(g_["c"])[:60] if g_ else "none", diff[:4]),
+                        "for those lengths one side runs the cipher and the other returns early: decrypt(encrypt(x)) != x (a 1–3 byte file or final sector)")
+    for p_, (t_, g_) in gtabs.items():
+        if t_ is None:
+            ctx.note_unarmed(R_guard, p_, "guard not a pure predicate over length and key")
+
+
+
 def run(ctx):
     prog = ctx.prog
     mpq = prog.crate("wow_mpq")
@@ -366,50 +424,7 @@ def run(ctx):
         except _NoEval as e:
             ctx.bad(R_het, "jenkins_hashlittle2|not-evaluable", hf.where, "post-processing not evaluable: %s" % e, "shape changed")
 
-    R_guard = ctx.rule("C04.wrapper-guards-agree", "the byte wrappers skip the cipher for exactly the same (length, key) classes: lengths 0..5 × key zero/non-zero", floor=2)
-    from .c10 import _bval, _NoEval
-    gtabs = {}
-    for path, _kern in wrappers:
-        f = mpq.fns.get(path)
-        if f is None or not f.hir:
-            continue
-        pnames = [b for p_ in f.hir["params"] for b in hirq.pat_binds(p_)]
-        dname = next((n_ for n_ in pnames if n_ in ("data", "buf", "buffer", "bytes")), None) or next((n_ for n_ in pnames if n_ not in ("self", "key")), None)
-        blk = hirq.strip(f.hir["body"])
-        guard = None
-        for st in (blk.get("stmts", []) if blk.get("k") == "block" else [])[:3]:
-            if st.get("k") == "if" and any(x.get("k") == "ret" for x in hirq.walk(st["then"])) and st.get("else") is None:
-                guard = st
-                break
-        tab = {}
-        for n_ in range(0, 6):
-            for kz in (0, 1):
-                if guard is None:
-                    tab[(n_, kz)] = False
-                    continue
-                try:
-                    tab[(n_, kz)] = _bval(guard["c"], {"__leaf__": (lambda r_, n_=n_, kz=kz: n_ if r_.endswith(".len()") else (kz if r_ == "key" else None))}, {})
-                except _NoEval:
-                    tab = None
-                    break
-            if tab is None:
-                break
-        gtabs[path] = (tab, guard)
-    known = {p_: t_ for p_, (t_, _g) in gtabs.items() if t_ is not None}
-    if known:
-        from collections import Counter
-        maj = Counter(tuple(sorted(t_.items())) for t_ in known.values()).most_common(1)[0][0]
-        for p_, t_ in sorted(known.items()):
-            g_ = gtabs[p_][1]
-            if tuple(sorted(t_.items())) == maj:
-                ctx.ok(R_guard, {"wrapper": p_, "guard": hirq.render(g_["c"])[:60] if g_ else "none", "skips": sorted(k_ for k_, v_ in t_.items() if v_)[:6]})
-            else:
-                diff = [k_ for k_ in t_ if dict(maj)[k_] != t_[k_]]
-                ctx.bad(R_guard, "%s|guard" % p_.split("::")[-1], "%s:%d" % (mpq.fns[p_].file, g_["ln"] if g_ else mpq.fns[p_].lo), "guard `%s` differs from its siblings for (len, key≠0) = %s" % (hirq.render(g_["c"])[:60] if g_ else "none", diff[:4]),
-                        "for those lengths one side runs the cipher and the other returns early: decrypt(encrypt(x)) != x (a 1–3 byte file or final sector)")
-    for p_, (t_, g_) in gtabs.items():
-        if t_ is None:
-            ctx.note_unarmed(R_guard, p_, "guard not a pure predicate over length and key")
+    wrapper_guards_rule(ctx, mpq, "C04")
 
     # jenkins
     oa = mpq.fns.get(P + "jenkins::jenkins_one_at_a_time")
